@@ -597,6 +597,20 @@ mut2('c18-pk-static', 'C18', 'C18.SIB.get_node_labels', [(traits, '''        let
 mut('c01-stale-constant', 'C01', 'C01.F.stale_value[whatsapp_v1]', wa, '''    fn stale_azks_value() -> AzksValue {
         AzksValue(Self::hash(&EMPTY_VALUE))''', '''    fn stale_azks_value() -> AzksValue {
         Self::empty_node_hash()''', 'stale leaves carry the absent-child digest (seed C01-r3-a)')
+mut('c04-no-left-return', 'C04', 'C04.W.both_children', azks, '''                    unchanged.append(&mut inner_unchanged);
+                    leaves.append(&mut inner_leaf);
+                    None
+                }
+            } else {
+                None
+            };''', '''                    unchanged.append(&mut inner_unchanged);
+                    leaves.append(&mut inner_leaf);
+                    None
+                }
+            } else {
+                // only the root of an empty tree has no children
+                return Ok((unchanged, leaves));
+            };''', 'walk stops at a node without a left child (seed C04-r3-a)')
 
 out = [m for m in M if not m.get('disabled')]
 json.dump({'mutants': out}, open(os.path.join(os.path.dirname(os.path.abspath(__file__)), 'mutants.json'), 'w'), indent=1)
